@@ -75,6 +75,54 @@ type entry struct {
 	f    func(r *fox.Router)
 }
 
+// stale holds reader handles taken on a tree that was replaced afterwards (their context pools are empty, so the
+// first use has to allocate a context for a tree that is no longer the published one).
+type stale struct {
+	it  fox.Iter
+	txn *fox.Txn
+	cc  fox.ContextCloser
+}
+
+var old *stale
+
+func takeStale(r *fox.Router) *stale {
+	s := &stale{it: r.Iter(), txn: r.Txn(false)}
+	_, s.cc, _ = r.Lookup(nil, req("GET", "", "/p/1/c/x"))
+	// replace the published tree (more parameters, so pooled contexts cannot be shared)
+	r.MustHandle("GET", "/stale/{a}/{b}/{c}/{d}/{e}", func(fox.Context) {})
+	return s
+}
+
+func staleEntries() []entry {
+	return []entry{
+		{"stale Iter.Reverse+Routes", func(r *fox.Router) {
+			for range old.it.Reverse(seq("GET"), "h.com", "/s/a") {
+			}
+			for range old.it.Routes(seq("GET"), "/s/a") {
+			}
+			for range old.it.All() {
+			}
+		}},
+		{"stale Txn(false) Reverse+Lookup+Iter", func(r *fox.Router) {
+			old.txn.Reverse("GET", "", "/p/1/c/x")
+			old.txn.Has("GET", "/s/a")
+			if _, cc, _ := old.txn.Lookup(nil, req("GET", "h.com", "/s/a")); cc != nil {
+				cc.Close()
+			}
+			for range old.txn.Iter().Reverse(seq("GET"), "", "/s/a") {
+			}
+		}},
+		{"stale Lookup context CloneWith+Clone", func(r *fox.Router) {
+			if old.cc != nil {
+				cw := old.cc.CloneWith(nil, req("GET", "", "/p/1/c/x"))
+				_ = cw.Param("id")
+				_ = old.cc.Clone()
+				// deliberately not closed: every call must allocate from the stale tree's pool again
+			}
+		}},
+	}
+}
+
 func entries() []entry {
 	serve := func(m, h, p string) func(*fox.Router) {
 		return func(r *fox.Router) { r.ServeHTTP(&nullW{http.Header{}}, req(m, h, p)) }
@@ -250,11 +298,12 @@ func main() {
 		runtime.GOMAXPROCS(1)
 	}
 	reps := run.Pick(50, 200)
-	ents := entries()
+	ents := append(entries(), staleEntries()...)
 	proven := map[string]bool{} // entry points already shown to block: not re-tested (each costs a full watchdog)
 	for _, cfg := range configs {
 		for _, stage := range stages {
 			r := build(cfg)
+			old = takeStale(r)
 			release, ok := park(r, stage)
 			if !ok {
 				run.Inconclusive("writer did not reach stage %s (config %s)", stage, cfg.name)
